@@ -84,6 +84,10 @@ def run(ctx, replay=None):
             ctx.count('maxlag', repr(maxlag))
             ctx.count('unit_square', unit)
             try:
+                if rng.random() < 0.3:
+                    v = np.round(v * 10).astype(rng.choice(['int64', 'int32']))       # observations recorded as whole numbers (integer dtype)
+                    case['values_dtype'] = str(v.dtype)
+                ctx.count('values_dtype', str(np.asarray(v).dtype))
                 src_kind = rng.choice(['coords', 'coords', 'coords', 'samples', 'minkowski'])
                 ctx.count('source_space', src_kind)
                 case['source_space'] = src_kind
@@ -129,6 +133,11 @@ def run(ctx, replay=None):
                 res = res if isinstance(res, list) else [res]
                 res2 = res2 if isinstance(res2, list) else [res2]
                 ctx.disagreements_checked += 1
+                if sigma > 0 and np.asarray(V.values).dtype.kind in 'iu' and rec.members and all(np.all(np.asarray(m_.values, float) == np.round(np.asarray(m_.values, float))) for m_ in rec.members):
+                    ctx.problem('oracle', 'integer-typed observations: every Monte-Carlo member holds whole numbers only (the noise is not N(0, sigma) around the observations)', dict(case, q=q), None,
+                                {'what': 'member-noise-rounded'})
+                    ok = False
+                    break
                 if len(rec.members) != num_iter:
                     ctx.problem('correspondence', 'number of Monte-Carlo members differs from num_iter', case, {'members': len(rec.members)})
                 mem = member_results(rec.members, evalf, eval_at)
